@@ -114,6 +114,11 @@ func H_inotify_request_default() {
 		}
 	}
 	verifAssert(m&unix.IN_DONT_FOLLOW == 0, "default follows symlinks")
+	var known uint32
+	for _, r := range verifInotifyT {
+		known |= r.bit
+	}
+	verifAssert(m&^known == 0, "default Add requests a flag that is not one of the documented events (e.g. IN_EXCL_UNLINK would silence an unlinked file that is still open, IN_ONLYDIR would refuse files)")
 	verifReach("request-default")
 }
 
